@@ -416,6 +416,9 @@ class Contentlines(list):
     def from_ical(cls, st):
         """Parses a string into content lines.
         """
+        if isinstance(st, str) and st.startswith('\ufeff'):
+            # a decoded byte-order mark: bytes input loses it in to_unicode
+            st = st[1:]
         st = to_unicode(st)
         try:
             # a fold is carriage return followed by either a space or a tab
